@@ -416,7 +416,9 @@ SVG_OPTS = [{}, {'xmldecl': False}, {'svgns': False}, {'nl': False}, {'omitsize'
             {'title': 'A <title> & "quotes"', 'desc': "it's <desc> &amp; more"}, {'title': 'Caf&eacute; &nbsp; &#0; AT&T;'}, {'title': ''},
             {'draw_transparent': True}, {'svgclass': None, 'lineclass': None}, {'svgid': 'qr1', 'svgclass': 'a b'},
             {'xmldecl': False, 'svgns': False, 'nl': False}, {'dark': '#00000080'}, {'dark': (10, 20, 30, 0.5), 'svgversion': 2.0},
-            {'light': '#ffffff80'}, {'encoding': None}, {'encoding': 'iso-8859-1', 'title': 'Grüße'}]
+            {'light': '#ffffff80'}, {'encoding': None}, {'encoding': 'iso-8859-1', 'title': 'Grüße'},
+            # the four-digit notation #RGBA: translucent, and opaque (alpha digit f: the same colour as #RGB)
+            {'dark': '#00f8'}, {'dark': '#f00f', 'light': '#0f08'}, {'dark': '#F008', 'svgversion': 2.0}, {'light': '#ffff'}]
 
 
 def allv_index(v):
@@ -624,6 +626,11 @@ def gen_typed(tier, seed_):
             add('typed', kind, v, {'quiet_zone': 'black', 'timing_light': 'black', 'timing_dark': 'white'})
             # the same colour given in different notations for different types
             add('typed', kind, v, {'dark': '#000', 'finder_dark': 'black', 'timing_dark': 'darkred', 'data_dark': (0, 0, 0), 'border': 1})
+            # one colour in its notations, per module type: #RGBA (translucent / opaque), #RRGGBBAA, tuple with integer and float alpha
+            if kind != 'ppm':
+                add('typed', kind, v, {'finder_dark': '#f008', 'data_dark': '#ff000088', 'timing_dark': (255, 0, 0, 136), 'format_dark': '#f00f', 'border': 1})
+                add('typed', kind, v, {'finder_dark': '#00f8', 'light': None})
+            add('typed', kind, v, {'finder_dark': '#00ff', 'data_dark': '#0000ffff', 'timing_dark': '#00F', 'alignment_dark': (0, 0, 255, 255), 'version_dark': (0, 0, 255, 1.0)})
             if kind == 'png':
                 # tuples that compare equal but are different colours: alpha 1 (integer, 1/255) and alpha 1.0 (float, opaque), 255 and 1.0
                 add('typed', kind, v, {'dark': (0, 0, 128, 1.0), 'finder_dark': (0, 0, 128, 1)})
